@@ -81,6 +81,12 @@ def roundtrip_cases(ctx):
             o["has_nulls"] = True
         cases.append({"fn": "rt", "spec": spec, "opts": o, "stream": "main"})
     # two crashes reported on the unchanged tree (thrift serialiser, C10's code): kept as a confirmation stream
+    # concurrent well-formed use of ONE handle (threads reading different columns, short switch interval)
+    for k, (scheme, dpv, comp) in enumerate([("simple", 1, None), ("simple", 2, None)] if ctx.quick() else
+                                            [("simple", 1, None), ("simple", 2, None), ("hive", 1, None), ("simple", 1, "GZIP"), ("simple", 2, "GZIP")]):
+        cases.append({"fn": "mt_read", "n": 4000, "per_rg": 100, "rounds": 12 if ctx.quick() else 40, "switch": 1e-5, "scheme": scheme,
+                      "dpv": dpv, "compression": comp, "seed": rng.randrange(1 << 30),
+                      "threads": [["s"], ["i"], ["b"], ["f", "c"], ["s", "j"], ["i"]], "stream": "main"})
     cases.append({"fn": "thrift_numpy_int", "stream": "confirm"})
     cases.append({"fn": "kv_nonascii_big", "n": 400000, "stream": "confirm"})
     return cases
@@ -90,8 +96,14 @@ def roundtrip_collect(cases, scratch, quick):
     worker = os.path.join(os.path.dirname(os.path.abspath(L.__file__)), "codec_rt_worker.py")
     main_cases = [c for c in cases if c["stream"] == "main"]
     conf_cases = [c for c in cases if c["stream"] == "confirm"]
+    mt_cases = [c for c in main_cases if c["fn"] == "mt_read"]
+    main_cases = [c for c in main_cases if c["fn"] != "mt_read"]
     real = L.run_real(main_cases, os.path.join(scratch, "rt"), sanitize=True, nproc=4 if quick else 8,
                       max_crashes=10, worker=worker, chunk=30, timeout=600)
+    # the multi-threaded reads: one worker process each (a crash there must not take other cases with it)
+    real += L.run_real(mt_cases, os.path.join(scratch, "rtm"), sanitize=True, nproc=len(mt_cases) or 1, max_crashes=3, worker=worker,
+                       timeout=300, chunk=1)
+    main_cases = main_cases + mt_cases
     real += L.run_real(conf_cases, os.path.join(scratch, "rtc"), sanitize=True, nproc=2, max_crashes=10, worker=worker,
                        timeout=300, chunk=1)
     return main_cases + conf_cases, real
@@ -103,6 +115,8 @@ def roundtrip_judge(ctx, cases, real):
             ctx.count("round trips not run (worker crashed too often)", 1)
             continue
         short = {"stream": "roundtrip", "fn": c["fn"], "spec": c.get("spec"), "opts": c.get("opts"), "n": c.get("n")}
+        if c["fn"] == "mt_read":
+            short = dict({k: v for k, v in c.items() if k != "stream"}, stream="roundtrip")
         ctx.case(short, trivial=c["fn"] == "rt" and c["spec"]["n"] == 0)
         ctx.count("round-trip stream outcome", r[1] if r[0] in ("ok", "exc") else r[0])
         if c["fn"] == "rt":
@@ -113,6 +127,11 @@ def roundtrip_judge(ctx, cases, real):
             ctx.fail({"component": "roundtrip" if c["fn"] == "rt" else c["fn"], "stream": c["stream"], "kind": r[0],
                       "dpv": (c.get("opts") or {}).get("dpv"), "where": _where(r[2] if len(r) > 2 else "")},
                      short, "writer/reader under the sanitised build: %r; column kinds %s" % (r[:3], kinds))
+        elif c["fn"] == "mt_read" and (r[0] == "exc" or (r[0] == "ok" and r[1] != "clean")):
+            # no memory error was SEEN, but a reader thread got an exception / other data from a well-formed file: the
+            # native decoders were handed bytes that are not the page the metadata names
+            ctx.fail({"component": "mt_read", "stream": c["stream"], "kind": "bad-read", "dpv": c.get("dpv"), "where": ""}, short,
+                     "threads reading different columns of a well-formed file through one handle (under the sanitised build): %r" % (r[:3],))
 
 
 def _where(report):
@@ -172,12 +191,12 @@ def replay_roundtrip(case):
     import shutil
     tmp = tempfile.mkdtemp(prefix="verif-C12-replay-", dir="/tmp")
     try:
-        c = {k: v for k, v in case.items() if k in ("fn", "spec", "opts", "n")}
+        c = {k: v for k, v in case.items() if k != "stream"}
         worker = os.path.join(os.path.dirname(os.path.abspath(L.__file__)), "codec_rt_worker.py")
         r = L.run_real([c], tmp, sanitize=True, nproc=1, worker=worker, timeout=600)[0]
         print("case:", json.dumps(c)[:1500])
         print("real code under ASan+UBSan:", json.dumps(r)[:800])
-        bad = r[0] in ("crash", "asan", "ubsan", "missing")
+        bad = r[0] in ("crash", "asan", "ubsan", "missing") or (c["fn"] == "mt_read" and (r[0] == "exc" or r[1] != "clean"))
         print("=> property %s on this case" % ("FAILS" if bad else "holds"))
         return 1 if bad else 0
     finally:
